@@ -2,6 +2,7 @@ package props
 
 import (
 	"fmt"
+	"go/constant"
 	"go/token"
 	"go/types"
 	"sort"
@@ -29,6 +30,8 @@ func init() {
 		Assumptions: []string{"resource.Value/Collection write semantics (C02, C05)", "unitpb.Convert32 arithmetic (C18)"},
 		Run:         runC20,
 		Controls: []Control{
+			{Name: "revert-F62-empty-preset-name-looked-up", File: "pkg/trait/fanspeedpb/model.go", Old: "\tif newVal.Preset != \"\" && oldVal.Preset != newVal.Preset {\n", New: "\tif oldVal.Preset != newVal.Preset {\n", Expect: "R20.17"},
+			{Name: "meter-defaults-after-callers-options", File: "pkg/trait/meterpb/model.go", Old: "\tvalue := resource.NewValue(append(defaultOptions, opts...)...)\n", New: "\tvalue := resource.NewValue(append(opts, defaultOptions...)...)\n", Expect: "R20.16"},
 			{Name: "presets-option-appends", File: "pkg/trait/fanspeedpb/model_opts.go", Old: "\t\targs.presets = presets\n", New: "\t\targs.presets = append(args.presets, presets...)\n", Expect: "R20.1"},
 			{Name: "receipt-reset-only-on-version-change", File: "pkg/trait/publicationpb/model.go", Old: "\t\tif args.resetReceipt {\n", New: "\t\tif args.resetReceipt && newVal.Version != old.(*traits.Publication).Version {\n", Expect: "R20.15"},
 			{Name: "unknown-units-convert", File: "pkg/trait/vendingpb/unitpb/convert.go", Old: "\tif !fromUnitOk || !toUnitOk || fromUnit.category != toUnit.category {", New: "\t_, _ = fromUnitOk, toUnitOk\n\tif fromUnit.category != toUnit.category {", Expect: "R20.14"},
@@ -57,6 +60,12 @@ func init() {
 }
 
 func runC20(c *an.Ctx) {
+	r2017(c, "R20.17")
+	c.Min("R20.17", 1)
+	// defaults first, the caller's options last: an append onto the caller's variadic options puts the defaults after them,
+	// where they override what the caller configured (shared with R11.7, which reports the same construct as a race)
+	r117as(c, "R20.16")
+	c.Min("R20.16", 1)
 	r201opts(c)
 	r201ctor(c)
 	r202(c)
@@ -1911,4 +1920,157 @@ func r2015(c *an.Ctx) {
 	if n == 0 {
 		c.Unk(rule, name+"|the receipt is reset whenever the write asks for it", fn.Pos(), "no reset of the receipt found")
 	}
+}
+
+// r2017: a fan-speed write that names no preset has not chosen "no preset": proto3 cannot tell an unset name from an
+// empty one, and an update without a mask replaces the whole value. DeriveValues therefore takes its by-name branch -
+// the one that looks newVal.Preset up among the presets - only for a non-empty name (an empty one matches nothing and
+// the branch returns with index and percentage untouched: preset "", index 1, 0%), lets the index or the percentage
+// decide otherwise, and keeps the old name when neither of those changed.
+func r2017(c *an.Ctx, rule string) {
+	top := mustFunc(c, rule, "pkg/trait/fanspeedpb", "Model", "DeriveValues")
+	if top == nil {
+		return
+	}
+	name := "(*pkg/trait/fanspeedpb.Model).DeriveValues"
+	isField := func(v ssa.Value, f string) bool {
+		for _, s0 := range an.ValuesAt(v) {
+			if _, _, fld, ok := an.FieldOf(s0); ok && fld == f {
+				return true
+			}
+		}
+		return false
+	}
+	// the by-name look-up: a comparison `preset.Name == newVal.Preset`, a search helper given a predicate that makes it
+	// (slices.IndexFunc(m.presets, func(p Preset) bool { return p.Name == newVal.Preset })), or an index keyed by name
+	isNameCmp := func(in ssa.Instruction) bool {
+		bo, ok := in.(*ssa.BinOp)
+		if !ok || bo.Op != token.EQL {
+			return false
+		}
+		return (isField(bo.X, "Name") && isField(bo.Y, "Preset")) || (isField(bo.Y, "Name") && isField(bo.X, "Preset"))
+	}
+	var lookups []ssa.Instruction
+	for _, f := range append([]*ssa.Function{top}, an.TransparentCalleesOf(top, 2)...) {
+		an.Instrs(f, func(in ssa.Instruction) {
+			switch x := in.(type) {
+			case *ssa.BinOp:
+				if isNameCmp(x) {
+					lookups = append(lookups, x)
+				}
+			case *ssa.Lookup:
+				if _, isMap := x.X.Type().Underlying().(*types.Map); isMap && isField(x.Index, "Preset") {
+					lookups = append(lookups, x)
+				}
+			case *ssa.Call:
+				for _, a := range x.Call.Args {
+					if g := an.ClosureFn(a); g != nil {
+						has := false
+						an.Instrs(g, func(y ssa.Instruction) {
+							if isNameCmp(y) {
+								has = true
+							}
+						})
+						if has {
+							lookups = append(lookups, x)
+						}
+					}
+				}
+			}
+		})
+	}
+	nonEmpty := func(e an.CondEdge) bool {
+		bo, ok := e.If.Cond.(*ssa.BinOp)
+		if !ok || (bo.Op != token.NEQ && bo.Op != token.EQL) {
+			return false
+		}
+		for _, pair := range [][2]ssa.Value{{bo.X, bo.Y}, {bo.Y, bo.X}} {
+			k, isC := pair[1].(*ssa.Const)
+			if !isC || k.Value == nil || k.Value.Kind() != constant.String || constant.StringVal(k.Value) != "" {
+				continue
+			}
+			if isField(pair[0], "Preset") {
+				return e.Branch == (bo.Op == token.NEQ)
+			}
+		}
+		return false
+	}
+	// the calls of DeriveValues (and of the helpers it calls) that lead into each helper
+	topSite := map[*ssa.Function][]ssa.Instruction{}
+	var walk func(f *ssa.Function, via []ssa.Instruction, depth int)
+	walk = func(f *ssa.Function, via []ssa.Instruction, depth int) {
+		if depth > 2 {
+			return
+		}
+		an.Instrs(f, func(in ssa.Instruction) {
+			if cl, isCall := in.(*ssa.Call); isCall {
+				if h := an.TransparentCallee(cl); h != nil && h != f {
+					chain := append(append([]ssa.Instruction(nil), via...), in)
+					topSite[h] = append(topSite[h], chain...)
+					walk(h, chain, depth+1)
+				}
+			}
+		})
+	}
+	walk(top, nil, 0)
+	ok := true
+	for _, lk := range lookups {
+		if lk.Parent().Parent() != nil {
+			continue // inside a predicate literal: the call that is given the literal is the look-up
+		}
+		g := false
+		// where the look-up happens, or at the call in DeriveValues that leads to the helper it sits in
+		sites := []ssa.Instruction{lk}
+		if s, ok := topSite[lk.Parent()]; ok {
+			sites = append(sites, s...)
+		}
+		for _, at := range sites {
+			for _, e := range guardsThroughAnd(at) {
+				if nonEmpty(e) {
+					g = true
+				}
+			}
+		}
+		if !g {
+			ok = false
+		}
+	}
+	c.Check(ok, rule, name+"|the by-name branch needs a name", lookups[0].Pos(), "the look-up by name is only reached for a non-empty preset name",
+		"the branch that looks the new preset name up is also taken when the write names no preset: an update without a mask that sets only preset_index (or percentage) leaves preset \"\" next to index 1 and 0% - preset, index and percentage disagree")
+}
+
+// guardsThroughAnd lists the conditional edges that guard an instruction, looking through a materialised `A && B`
+// (a phi that is false on every edge but the one from the block that evaluated B: the true edge of a test of that phi
+// implies B, and everything that guards that block - A among it).
+func guardsThroughAnd(in ssa.Instruction) []an.CondEdge {
+	var out []an.CondEdge
+	seen := map[*ssa.If]bool{}
+	var add func(es []an.CondEdge, depth int)
+	add = func(es []an.CondEdge, depth int) {
+		for _, e := range es {
+			if seen[e.If] || depth > 4 {
+				continue
+			}
+			seen[e.If] = true
+			out = append(out, e)
+			phi, isPhi := e.If.Cond.(*ssa.Phi)
+			if !isPhi || !e.Branch {
+				continue
+			}
+			var from *ssa.BasicBlock
+			n := 0
+			for i, v := range phi.Edges {
+				if b, isC := an.ConstBool(v); isC && !b {
+					continue
+				}
+				n++
+				from = phi.Block().Preds[i]
+			}
+			if n == 1 && from != nil && len(from.Instrs) > 0 {
+				add(an.GuardingEdges(from.Instrs[len(from.Instrs)-1]), depth+1)
+			}
+		}
+	}
+	add(an.GuardingEdges(in), 0)
+	return out
 }
